@@ -87,7 +87,7 @@ def file_chunks(rng, net):
 def make_case(rng: random.Random, tier: str, thermal_p=0.25, mod_p=0.2, maxdeps=1, file_p=0.4, big=False) -> dict:
     nspec = rng.randint(3, 22 if big else 9)
     nreac = rng.randint(1, 60 if big else 14)
-    net = chem.structural_network(rng, nspec, nreac, extra_isolated=rng.choice([0, 1, 2]))
+    net = chem.structural_network(rng, nspec, nreac, extra_isolated=rng.choice([0, 1, 2]), surface=rng.random() < 0.3)
     case = {"net": net, "entry": "api", "indexed": rng.random() < 0.8}
     if rng.random() < thermal_p:
         case["cooling"] = add_thermal(rng, net)
@@ -136,6 +136,8 @@ def tags_of(case) -> set:
         t.add("thermal")
     if case.get("ode_modifier"):
         t.add("ode_modifier")
+    if any(s["surface"] for s in case["net"]["species"]):
+        t.add("ice_species")
     if case.get("entry") == "files":
         t.add("file_entry")
         if len({c["format"] for c in case["chunks"]}) > 1:
